@@ -167,6 +167,7 @@ fn main() {
             let scs = match fam.as_str() {
                 "surface" => surface::drive(seed, n),
                 "cov" => cov::drive(seed, n),
+                "curve-float" | "stroke-float" => drivers::curve_float(fam, seed, n),
                 f if f.starts_with("canvas") => drivers::canvas(f, seed, n),
                 "flatten" => drivers::curve("flatten", seed, n),
                 "contains" | "builder" | "arc" => pathfam::drive(fam, seed, n),
